@@ -71,7 +71,7 @@ Definition ex_st0 : state := mkSt [] []
   0 0 [(1, 2000000);
   (2, 1000000);
   (3, 50000000000);
-  (4, 300000)] [] [].
+  (4, 300000)] [] [] [].
 
 (* user 2 supplies asset 3; user 1 lends asset 1 (position 2) and asset 2 (position 3) *)
 Definition ex_warm : list op :=
